@@ -484,6 +484,15 @@ def cached(fcn):
     return CachedFcn(fcn)
 
 
+def _defaultName(expr):
+    """The name a UserFcn gives itself when none is supplied (the expression, or the name of a def)."""
+    if isinstance(expr, basestring):
+        return expr
+    if isinstance(expr, types.FunctionType) and expr.__name__ != "<lambda>":
+        return expr.__name__
+    return None
+
+
 def named(name, fcn):
     """Create a named, serializable version of fcn (histogrammar.util.UserFcn)
 
@@ -492,7 +501,7 @@ def named(name, fcn):
     Unlike the histogrammar.util.UserFcn constructor, this function avoids duplication (doubly wrapped objects) and
     commutes with histogrammar.util.cached and histogrammar.util.serializable (they can be applied in any order).
     """
-    if isinstance(fcn, UserFcn) and fcn.name is not None:
+    if isinstance(fcn, UserFcn) and fcn.name is not None and fcn.name != _defaultName(fcn.expr):
         raise ValueError(f"two names applied to the same function: {fcn.name} and {name}")
     if isinstance(fcn, CachedFcn):
         return CachedFcn(fcn.expr, name)
